@@ -63,6 +63,10 @@ func twoCol(s *Schema, kv func(int64) V, shift Expr, shift2 Expr) []*Stmt {
 		Upd(T, as(1, Plus(1, 1)), nil, 1, true, -1),
 		Upd(T, as(0, Lit(kv(12))), w(0, "=", kv(2)), -1, false, -1),
 		Upd(T, as(0, shift), w(1, "=", I(1)), -1, false, -1),
+		// one UPDATE that moves the row to another primary key AND gives it a value of b that
+		// another row may already hold (primary-key change and unique check in the same statement)
+		Upd(T, []Assign{{0, Lit(kv(12))}, {1, Lit(I(1))}}, w(0, "=", kv(2)), -1, false, -1),
+		Upd(T, []Assign{{0, shift}, {1, Lit(I(2))}}, w(0, "=", kv(1)), -1, false, -1),
 		// DELETE
 		Del(T, nil, -1, false, -1),
 		Del(T, w(0, "=", kv(1)), -1, false, -1),
